@@ -97,6 +97,14 @@ def _route_for(routes, action):
     return None
 
 
+def _drop_nulls(v):
+    if isinstance(v, dict):
+        return {k: _drop_nulls(x) for k, x in v.items() if x is not None}
+    if isinstance(v, list):
+        return [_drop_nulls(x) for x in v]
+    return v
+
+
 def _snake(payload):
     from ocpp.charge_point import camel_to_snake_case
     return camel_to_snake_case(payload)
@@ -339,7 +347,8 @@ def c02(version, routes, ops, timeout, res):
                     earlier.append(fr)
         mine = [fr for fr in replies + earlier if _py_eq(fr[1], uid)]
         if kind == "result":
-            ok = any(fr[0] == 3 and same_value(_snake(fr[2]), detail) for fr in mine)
+            # the observation lists the fields of the result object that are set: a JSON null in the reply is "not set"
+            ok = any(fr[0] == 3 and same_value(_drop_nulls(_snake(fr[2])), detail) for fr in mine)
             if not ok:
                 bad.append(("foreign-result:%s" % jkey(uid)[:40],
                             "caller %d (id %r) returned %r although no CALLRESULT with its id carries that payload" % (k, uid, detail)))
